@@ -188,9 +188,9 @@ def cases(run):
     ref0 = "GCTTCCAAGGTTACGTACGTTTGACC"
     yield f"lift W {ref0} N 2 2 6 CA 13 15 AGG + 1 15 24"          # F-C13a
     yield f"incF W {ref0} N 2 2 6 CA 13 15 AGG + 1 15 24"
-    yield f"lift W {ref0} 1 2 6 . + 1 3 5"                          # F-C13b
-    yield f"lift K:100 {ref0} 1 102 106 C - 1 104 106"              # F-C13b, padded, chunk
-    yield "vcf 2 chr1 5 6 1 none 1 A SNV chr1 9 12 1 none 1 A deletion"   # F-C13c
+    yield f"lift W {ref0} 1 2 6 . + 1 3 5"                          # former F-C13b (repaired: EmptyLocation)
+    yield f"lift K:100 {ref0} 1 102 106 C - 1 104 106"              # former F-C13b, padded, chunk
+    yield "vcf 2 chr1 5 6 1 none 1 A SNV chr1 9 12 1 none 1 A deletion"   # former F-C13c (repaired: unphased)
     # exhaustive small scope: one variant x every 1..2-block layout
     n = 7 if quick else 9
     ref = "GATCACGTA"[:n]
